@@ -105,6 +105,9 @@ int harness_main(int argc, char** argv, const char* property_id, const std::vect
 
 // set by harness before running each case; readable by props for e.g. tier-dependent effort
 extern bool g_replaying;
+// hash of the descriptor of the case being executed (set by every driver before the sub's run function): lets shared helpers
+// (spq::maybe_bystander) make per-case choices that are a pure function of the descriptor, so that a replay repeats them
+inline uint64_t g_case_hash = 0;
 
 }  // namespace vh
 
